@@ -196,6 +196,7 @@ def mkdirAll (s : Store) (v : View) (path : Bytes) (perm : Nat) : Store × Out :
 
 /-- OpenFile: returns the handle to register -/
 def openFile (s : Store) (v : View) (vid : Nat) (name : Bytes) (flag perm : Nat) : Store × Except Err Handle :=
+  if name.isEmpty then (s, .error .ENOENT) else
   let om := toOpenMode flag
   let r := searchNode s v name .eval
   if (r.err != .exists && r.err != .noent) || !r.pi.isLast then (s, .error r.err.toErr) else
